@@ -212,13 +212,15 @@ theorem readParts_exp0 (ip E : List Nat) (mk sg : Nat) (hi : ip.all NumLit.isDec
       by rcases hmk with rfl | rfl <;> decide⟩)]
   rcases hmk with rfl | rfl <;> rcases hsg with rfl | rfl <;> simp [takeDigits_all E hE]
 
-/-- no exponent part, integer spelling: the exponent is 0 whatever the number of digits -/
-theorem litExp_int (coeff : Nat) (e : Int) : litExp coeff false e 0 = some 0 := by
+/-- no exponent part, integer spelling: the exponent is 0, provided the number of digits is
+inside the window (at most 100001 digits) -/
+theorem litExp_int (coeff : Nat) (e : Int) (h : (Dec.numDigits coeff : Int) - 1 ≤ maxExp) :
+    litExp coeff false e 0 = some 0 := by
   unfold litExp
+  unfold maxExp at *
   simp only [Bool.false_and, Bool.false_eq_true, ↓reduceIte]
-  split
-  · rfl
-  · split <;> simp
+  rw [if_neg (by simp), if_neg (by simp; omega)]
+  simp
 
 theorem litExp_noexp (coeff fl : Nat) (e : Int) (h1 : (fl : Int) ≤ maxExp)
     (h2 : -maxExp ≤ -(fl : Int) + (Dec.numDigits coeff : Int) - 1)
@@ -474,7 +476,8 @@ theorem litValue_of (s : List Nat) (k : NumLit.Kind) (r : LitRes)
   exact hv
 
 /-- plain digits: an int with exponent 0 -/
-theorem lit_int (m : Nat) : litValue (digitsOf m) = .ok ⟨.int, ⟨(m : Int), 0⟩⟩ := by
+theorem lit_int (m : Nat) (hL : (Dec.numDigits m : Int) - 1 ≤ maxExp) :
+    litValue (digitsOf m) = .ok ⟨.int, ⟨(m : Int), 0⟩⟩ := by
   have hacc : NumLit.parseNumUnsigned (digitsOf m) = some .int := by
     by_cases hm : m = 0
     · subst hm; exact acc_zero
@@ -487,7 +490,10 @@ theorem lit_int (m : Nat) : litValue (digitsOf m) = .ok ⟨.int, ⟨(m : Int), 0
   rw [List.append_nil] at hrv
   apply litValue_of _ .int _ hacc
   rw [hrv, readParts_int _ (digitsOf_allDec m)]
-  have := decValue_plain .int (digitsOf m) [] [] false false 0 (by simpa using litExp_int _ _)
+  have := decValue_plain .int (digitsOf m) [] [] false false 0 (by
+    have := litExp_int (horner 10 (digitsOf m ++ [])) (horner 10 [] : Int)
+      (by rw [List.append_nil, horner_digitsOf]; exact hL)
+    simpa using this)
   simpa [horner_digitsOf] using this
 
 /-- digits followed by `.0` -/
@@ -843,7 +849,7 @@ theorem json_core (mk m : Nat) (x : Int) (hmk : mk = 101 ∨ mk = 69) (hw : Wind
   · by_cases h0 : x = 0
     · subst h0
       rw [fmtF_zero]
-      exact ⟨_, lit_int m, rfl⟩
+      exact ⟨_, lit_int m (by have := hw.2.2.2; omega), rfl⟩
     · have hx' : x < 0 := by omega
       exact ⟨_, lit_fmtF_neg m x hx' hw, rfl⟩
   · exact ⟨_, lit_fmtE mk m x hmk hw, rfl⟩
